@@ -2667,7 +2667,7 @@ func (d *c17d_bn254) mpcFamily() {
 	}
 	// admissible shapes: every slice has at least two elements. The last two start a group with a slice of length two.
 	rshapes := []rshape{{[]int{2}, []int{2}, false}, {[]int{4, 2}, []int{3}, false}, {[]int{3}, []int{3, 2}, false},
-		{[]int{3}, []int{2, 3}, false}, {[]int{2, 2}, []int{2}, true}}
+		{[]int{3}, []int{2, 3}, false}, {[]int{2, 2}, []int{2}, true}, {[]int{3}, []int{3}, false}, {[]int{4}, []int{4}, false}}
 	for _, sh := range rshapes {
 		tr.scenario("mpcratio")
 		rho, rho2 := d.r.Below(d.q), d.r.Below(d.q)
@@ -2709,6 +2709,18 @@ func (d *c17d_bn254) mpcFamily() {
 			p.g2[i] = geo2(big.NewInt(0), rho, len(p.g2[i]))
 		}
 		c17Forged(tr, cr, "zerofirst", p)
+		if len(sh.l1) == 1 && len(sh.l2) == 1 && sh.l1[0] == sh.l2[0] && sh.l1[0] >= 3 {
+			// mirrored: the same non-geometric exponents (1, 2, 5, 7) in both groups - each sequence alone is refused, and
+			// so must the pair be (a verifier that folds both groups with the same random weights accepts it)
+			p = cr.cp(a)
+			mults := []int64{1, 2, 5, 7}
+			a1, a2 := d.r.Below(d.q), d.r.Below(d.q)
+			for i := range p.g1[0] {
+				p.g1[0][i] = d.p1(mulq(a1, big.NewInt(mults[i])))
+				p.g2[0][i] = d.p2(mulq(a2, big.NewInt(mults[i])))
+			}
+			c17Forged(tr, cr, "mirrored", p)
+		}
 		p = cr.cp(a) // one sequence is geometric with another ratio
 		p.g1[i1] = geo1(d.r.Below(d.q), rho2, len(p.g1[i1]))
 		c17Forged(tr, cr, "otherratio", p)
